@@ -34,6 +34,11 @@ CFG = gen.cfg_with(probe_w=1, max_root=5)
 KMAX = 16
 
 
+def program_strategy(cfg, cache):
+    from hypothesis import strategies as _st
+    return _st.one_of(gen.program(cfg, cache), gen.program(cfg, cache), gen.program(cfg, cache), gen.ancestor_pattern_program(cfg, cache))
+
+
 def drive(draw, h, cfg):
     names = list(h.prog_rel['funcs'])
     univ = cfg['universe']
